@@ -105,16 +105,19 @@ class _FCalc:
         return 0.0
 
 
-def sc_forcebias(V, n=2, kind="fixatoms"):
+def sc_forcebias(V, n=2, kind="fixatoms", shaped_masses=False):
     from quansino.mc.fbmc import ForceBias
 
-    info = f"fb:n={n}:{kind}"
+    info = f"fb:n={n}:{kind}:shaped={shaped_masses}"
     atoms = mcsim.make_atoms(V, n, momenta=False, extras=False, masses=MASSES[:n])
     fixed = _constrain(V, atoms, kind)
     F = np.zeros((n, 3), dtype=object if V.mode == "sym" else float)
     F[n - 1, 1] = V.real("f")
     atoms.calc = _FCalc(F)
     fb = ForceBias(atoms, delta=V.real("delta", lo=0, lo_strict=True, hi=2), temperature=300.0, seed=2)
+    if shaped_masses:
+        # scaling masses chosen by the user (public update_masses), different from the real masses
+        fb.update_masses(np.array([[1.0, 4.0, 16.0], [2.0, 8.0, 32.0], [3.0, 5.0, 7.0]][:n]))
     if V.mode == "sym":
         E().no_axioms = ("exp",)
         calls = [0]
@@ -210,6 +213,7 @@ def _plan(tier):
         P.append(("mc", dict(table="rot", n=2, kind=kind, check=False), R))
         P.append(("mc", dict(table="h", n=2, kind=kind, check=True), R + ("failed",)))
         P.append(("forcebias", dict(n=2, kind=kind), ("stepped",)))
+        P.append(("forcebias", dict(n=2, kind=kind, shaped_masses=True), ("stepped",)))
     for g in GEOMS:
         P.append(("fixrot", dict(geom=g), ("done",)))
     if not q:
